@@ -231,7 +231,7 @@ fn repeat_case(name: &'static str, f: Conv) -> impl Fn(&mut Src, &mut Ctx) -> Re
                 }
                 ctx.sample(name, || {
                     let mut x = t.clone();
-                    x.truncate(700);
+                    crate::engine::clip(&mut x, 700);
                     x
                 });
                 first = Some(t);
@@ -319,7 +319,7 @@ fn render(sub: &str, choices: &[u32]) -> Option<String> {
         if sub == *name {
             let mut s = Src::new(choices);
             return f(&mut s).ok().map(|(mut t, _)| {
-                t.truncate(1500);
+                crate::engine::clip(&mut t, 1500);
                 t
             });
         }
